@@ -107,7 +107,7 @@ func VC16_Symmetry() {
 	}
 	decoF, decoT, sp := 0, 0, 0
 	if !emptyTag {
-		decoF, decoT, sp = rt.Choice("decoF", 3), rt.Choice("decoT", 3), rt.Choice("spelling", 4)
+		decoF, decoT, sp = rt.Choice("decoF", 3), rt.Choice("decoT", 3), rt.Choice("spelling", 5)
 	}
 	m2 := dialogMsg(rt.Bool("request2"), f, t, callID, decoF, decoT, sp, true, true, L)
 	p1, err1 := parseText(m1)
@@ -204,7 +204,7 @@ func VC16_NoTag() {
 	callID := rt.Str("callid", clsCallID, 1, L)
 	a, b := genEndpoint(L), genEndpoint(L)
 	missing := rt.Choice("missing", 3) // 0: From tag, 1: To tag, 2: both
-	m := dialogMsg(rt.Bool("request"), a, b, callID, rt.Choice("decoF", 3), rt.Choice("decoT", 3), rt.Choice("spelling", 4), missing == 1, missing == 0, L)
+	m := dialogMsg(rt.Bool("request"), a, b, callID, rt.Choice("decoF", 3), rt.Choice("decoT", 3), rt.Choice("spelling", 5), missing == 1, missing == 0, L)
 	p, err := parseText(m)
 	rt.Assert(err == nil, "message decodes")
 	if err != nil {
